@@ -1139,6 +1139,30 @@ def run(ctx):
             for ops in directed_histories():
                 cs = run_ops(env, allow, "base", fixed, ops)
                 account(cs, "directed")
+        # 2b. links whose manager attribute cannot be read without changing it (UnitManager.next_unit_id on the pinned
+        #     tree): only the clause that does not need the manager's value - setting off, the user's value is saved
+        for (cls, attr) in sorted(env.volatile):
+            env.settings.ALLOW_DIRTY_RETRIEVER_OVERWRITE = False
+            scn = env.load("base")
+            W = walk_scenario(scn, env.volatile, read=True)
+            for kind, p in W.prog:
+                if kind == "plain" and p.volatile and p.attr == attr:
+                    dt = p.container.retriever_map[p.rname].datatype
+                    v = alt_value(dt, getattr(p.container, p.rname), rng)
+                    setattr(p.container, p.rname, v)
+                    fn = env.path()
+                    st, _ = common.outcome(env.quiet, scn.write_to_file, fn)
+                    st2, s2 = common.outcome(env.quiet, env.Scn.from_file, fn)
+                    got = None
+                    if st == "ok" and st2 == "ok":
+                        c2, r2 = Case._resolve(s2.sections, p.key)
+                        got = getattr(c2, r2)
+                    d = getattr(p.container.retriever_map[p.rname], "is_dirty", None)
+                    R.case(key=(p.key, "user_value_saved", 0, "volatile"), nontrivial=True, tags=("volatile-link",))
+                    if st != "ok" or st2 != "ok" or canon(got, dt) != canon(v, dt) or d is False:
+                        R.violation({"clause": "user_value_saved", "field_kind": "plain", "link": "volatile"},
+                                    f"{p.key}: directly assigned {v!r}, file has {got!r} (save {st}, reload {st2}, is_dirty={d})",
+                                    {"allow": 0, "source": "base", "ops": [{"op": "user", "key": p.key, "val": enc(v)}, {"op": "save"}]})
         # 3. seeded random histories
         ncases = ctx.budget(150, 2400)
         ndefault = ctx.budget(2, 12)
